@@ -260,18 +260,21 @@ Proof.
 Qed.
 
 Theorem head_view {T} (b : list T) v n : valid_view b v -> 0 <= n ->
-  exists r, head v n = Ok r /\ voff r = voff v /\ window b r = firstn (Z.to_nat n) (window b v).
+  exists r, head v n = Ok r /\ voff r = voff v /\ vlen r = Z.min n (vlen v) /\ vcap r = vcap v /\
+            window b r = firstn (Z.to_nat n) (window b v).
 Proof.
   intros V Hn. pose proof V as (H1 & H2 & H3).
-  eexists. split; [apply head_correct; lia|]. split; [reflexivity|]. apply head_window; assumption.
+  eexists. split; [apply head_correct; lia|]. do 3 (split; [reflexivity|]). apply head_window; assumption.
 Qed.
 
 Theorem tail_view {T} (b : list T) v n : valid_view b v -> 0 <= n ->
-  exists r, tail v n = Ok r /\ voff r + vlen r = voff v + vlen v /\
+  exists r, tail v n = Ok r /\ voff r + vlen r = voff v + vlen v /\ vlen r = Z.min n (vlen v) /\
+            voff r + vcap r = voff v + vcap v /\
             window b r = skipn (Z.to_nat (vlen v - Z.min n (vlen v))) (window b v).
 Proof.
   intros V Hn. pose proof V as (H1 & H2 & H3).
-  eexists. split; [apply tail_correct; lia|]. cbn [voff vlen]. split; [lia|]. apply tail_window; assumption.
+  eexists. split; [apply tail_correct; lia|]. cbn [voff vlen vcap]. split; [lia|]. split; [reflexivity|].
+  split; [destruct (Z.ltb_spec (vlen v) n); lia|]. apply tail_window; assumption.
 Qed.
 
 Theorem negative_arguments {T} (v : view) (n : Z) (x : list T) (r : list (list T)) :
